@@ -1,6 +1,7 @@
 package drv
 
 import (
+	"encoding/json"
 	"sync"
 	"fmt"
 	"math/rand"
@@ -627,7 +628,27 @@ func (i *Inst) runBurst(s *OiScript, tw *TraceWriter, rng *rand.Rand, store stri
 			claims, _ := forge.PayloadClaims(f["gatewayaccesstoken"])
 			ev["fileHost"] = i.Abs(f["full address"], append([][]string{{x.user}}, cfg.Hosts...))
 			ev["claimHostIsFileHost"] = fmt.Sprint(claims["remoteServer"]) == f["full address"]
-			ev["claimUserOk"] = fmt.Sprint(claims["sub"]) == wantUser && f["username"] == wantUser && f["domain"] == wantDomain
+			fileUser := f["username"]
+			ev["userTok"], ev["userTokSubOK"] = false, true
+			if cfg.UserTok != "" && strings.Contains(cfg.Template, "{{ token }}") {
+				// the login name is rendered as name::token: the token in THIS file is one minted for THIS file's user
+				if p := strings.SplitN(f["username"], "::", 2); len(p) == 2 {
+					fileUser = p[0]
+					ev["userTok"] = true
+					h, err := i.NewBrowser("", "").Get(i.BaseURL() + "/tokeninfo?access_token=" + url.QueryEscape(p[1]))
+					sub := ""
+					if err == nil && h.Status == 200 {
+						var m map[string]interface{}
+						if json.Unmarshal([]byte(h.Body), &m) == nil {
+							sub = fmt.Sprint(m["sub"])
+						}
+					}
+					ev["userTokSubOK"] = sub == wantUser
+				} else {
+					ev["userTokSubOK"] = false
+				}
+			}
+			ev["claimUserOk"] = fmt.Sprint(claims["sub"]) == wantUser && fileUser == wantUser && f["domain"] == wantDomain
 			ev["claimAddr"] = fmt.Sprint(claims["clientIp"])
 			ev["claimAtIsSession"] = fmt.Sprint(claims["accessToken"]) == x.at
 			gwHost := strings.TrimPrefix(strings.TrimPrefix(i.BaseURL(), "http://"), "https://")
